@@ -143,6 +143,10 @@ RANDOM_ONLY = {
         dict(kind='arc', **arc(16, 36, [1, 2, 3], random=(8, 1000))),
         dict(kind='wtlfu', **wt(8, 20, 24, 100, 72, [1, 2, 3], random=(8, 1500))),
         dict(kind='wtlfu', **wt(1, 19, 80, 200, 130, [1, 2, 3], random=(6, 2500))),
+        # counter saturation: few keys, a sample window far longer than the history, so that victim and candidate both sit
+        # at the ceiling of the 4-bit counters (15, 16 with the doorkeeper) when they are compared
+        dict(kind='wtlfu', **wt(1, 1, 1, 1000, 4, [1, 2], random=(12, 400))),
+        dict(kind='wtlfu', **wt(2, 2, 1, 600, 6, [1, 2], random=(12, 400))),
     ],
     'thorough': [
         dict(kind='raw', **raw(6, [0, 1, 3, 8], 12, [1, 2, 3], random=(300, 400))),
@@ -188,5 +192,8 @@ RANDOM_ONLY = {
         dict(kind='wtlfu', **wt(8, 20, 24, 100, 72, [1, 2, 3], random=(40, 3000))),
         dict(kind='wtlfu', **wt(1, 19, 80, 200, 130, [1, 2, 3], random=(20, 5000))),
         dict(kind='wtlfu', **wt(2, 39, 160, 400, 260, [1, 2, 3], random=(10, 8000))),
+        dict(kind='wtlfu', **wt(1, 1, 1, 1000, 4, [1, 2], random=(100, 600))),
+        dict(kind='wtlfu', **wt(2, 2, 1, 600, 6, [1, 2], random=(100, 600))),
+        dict(kind='wtlfu', **wt(1, 2, 2, 5000, 8, [1, 2], random=(50, 2000))),
     ],
 }
